@@ -22,7 +22,7 @@ TOL = 5      # quanta of 1e-6 of the scale of each observable
 def bounds(ctx):
     if ctx.quick:
         return dict(MeshIds=list(range(1, 10)), Patterns=[13], MaxFree=2)
-    return dict(MeshIds=list(range(1, 10)), Patterns=[0, 5, 13, 22, 26], MaxFree=4)
+    return dict(MeshIds=list(range(1, 10)), Patterns=[0, 5, 13, 22, 26], MaxFree=3)     # 150k states with MaxFree=4: 19 CPU-minutes
 
 
 def run_pairs(ctx):
@@ -182,7 +182,7 @@ def run(ctx):
     ctx.assume("run level: gauge-equivalent initial states are produced by multiplying the recorded order parameter of a warm-up run by "
                "exp(i chi), chi = c.r with c the difference of the two dimensionless vector potentials as evaluated by TDGLSolver itself")
     ctx.assume("run level compares |psi|, supercurrent, normal current and mu_i - mu_0 quantised at 1e-6 of their scale with tolerance 5 quanta; "
-               "measured differences are ~1e-11 of the scale (<= 2e-10 with screening); fixed time step; with screening the induced vector "
+               "measured differences are ~1e-11 of the scale (<= 3e-9 with screening); fixed time step; with screening the induced vector "
                "potential is compared as well and the per-step screening_iterations records must be equal")
 
 
